@@ -446,7 +446,7 @@ class Interp:
                 return ("modattr", (o[1] + "." if o[1] else "") + o[2], e.attr)
             if isinstance(o, SymArray):
                 if e.attr == "shape":
-                    return o.shape
+                    return tuple(int(x) if sp.sympify(x).is_Integer else x for x in o.shape)
                 if e.attr == "T":
                     return o.T
                 if e.attr == "ndim":
